@@ -182,9 +182,12 @@ package check
 //@   props C03 C15
 //@   like functype::checkgroup.CheckFunc
 
+// the node type of the debug tree denotes the operator of the rewrite: an intersection for AND,
+// a union for everything else (OR and the zero value); proved on the body, no longer assumed
 //@ func toTreeNodeType
-//@   trusted
-//@   pure
+//@   props C01 C13
+//@   modifies nothing
+//@   ensures[C01] tree-node-type-is-the-operator: (op == ast.OperatorAnd ==> result == ketoapi.TreeNodeIntersection) && (op != ast.OperatorAnd ==> result == ketoapi.TreeNodeUnion)
 
 //@ func (*Engine).checkSubjectSetRewrite
 //@   decreases[C15] restDepth + 1, 0, astsize(rewrite)
